@@ -494,6 +494,26 @@ func strictAccept(text string) (accept bool, tree parser.IQueryContext) {
 	return true, t
 }
 
+// evals: deep-equal sub-objects of the input are made ONE shared map value (aliasing)
+var shareEqualMaps bool
+
+func shareMaps(v interface{}, seen *[]map[string]interface{}) interface{} {
+	m, ok := v.(map[string]interface{})
+	if !ok || m == nil {
+		return v
+	}
+	for k, e := range m {
+		m[k] = shareMaps(e, seen)
+	}
+	for _, s := range *seen {
+		if same(s, m) {
+			return s
+		}
+	}
+	*seen = append(*seen, m)
+	return m
+}
+
 func doEval(id string, rule string, objx *sexp) string {
 	ov, err := buildVal(objx)
 	if err != nil {
@@ -502,6 +522,12 @@ func doEval(id string, rule string, objx *sexp) string {
 	obj, ok := ov.(map[string]interface{})
 	if !ok {
 		return id + " BADCASE"
+	}
+	if shareEqualMaps {
+		var seen []map[string]interface{}
+		for k, e := range obj {
+			obj[k] = shareMaps(e, &seen)
+		}
 	}
 	snap := snapshot(obj)
 	escaped := false
@@ -822,11 +848,12 @@ func doLine(line string) string {
 	}
 	kind, id := x.list[0].atom, x.list[1].atom
 	switch kind {
-	case "eval":
+	case "eval", "evals":
 		rule, ok := hexBytes(x.list[2].atom)
 		if !ok || len(x.list) != 4 {
 			return id + " BADCASE"
 		}
+		shareEqualMaps = kind == "evals"
 		return doEval(id, rule, x.list[3])
 	case "hist":
 		rule, ok := hexBytes(x.list[2].atom)
